@@ -175,7 +175,7 @@ def gen_runs(tier):
         # rfail=1: in exactly one request per history ONE digest read of the ingress transaction meets
         # a transient (not "not found") storage fault: that operation must be treated as not superseding
         ("r1", dict(pool=1, npools=0, dup=1, batch=2, nlocal=0, c0s=[0], late=False, rfail=1)),
-        ("r2", dict(pool=2, npools=20 if q else 0, dup=1, batch=2, nlocal=0, c0s=[0], late=False, rfail=1)),
+        ("r2", dict(pool=2, npools=40 if q else 0, dup=1, batch=2, nlocal=0, c0s=[0], late=False, rfail=1)),
     ] + ([] if q else [
         ("r3", dict(pool=3, npools=40, dup=0, batch=3, nlocal=0, c0s=[0], late=False, rfail=1)),
         ("f2dup", dict(pool=2, npools=60, dup=1, batch=3, nlocal=0, c0s=[0], late=False, fail=1)),
